@@ -53,6 +53,7 @@ type Unit struct {
 	iterLists    []string
 	condAxioms   []condAxiom
 	lastRawArgs  []Value
+	oldRebased   bool
 	selfInvKey   string // receiver type with an object invariant (methods of T)
 }
 
@@ -204,6 +205,9 @@ func (u *Unit) zeroOf(s Sort) string {
 		return "0.0"
 	case SFP:
 		return "(_ +zero 11 53)"
+	}
+	if _, vs, ok := s.isArray(); ok && vs == SBool {
+		return fmt.Sprintf("((as const %s) false)", s)
 	}
 	return "nil"
 }
